@@ -3,7 +3,9 @@ package c31
 import (
 	"encoding/json"
 	"fmt"
+	"runtime/debug"
 	"sort"
+	"strings"
 
 	"github.com/ontio/ontology-crypto/keypair"
 	s "github.com/ontio/ontology-crypto/signature"
@@ -46,6 +48,10 @@ type Op struct {
 	MsgHash  int     `json:"msg_hash"` // CommitBlockHash / EndorsedBlockHash: same coding as Sig.Hash
 	Sig      Sig     `json:"sig"`      // CommitterSig / EndorserSig / proposer's block signature
 	Variant  int     `json:"variant"`  // proposal: 0 = the proposer's block, 1 = a second, different block
+	// proposal: remove the signature list of a header before encoding: 1 = block header,
+	// 2 = empty-block header, 3 = both; StripNil chooses a nil list instead of an empty one
+	StripSig int  `json:"strip_sig,omitempty"`
+	StripNil bool `json:"strip_nil,omitempty"`
 	Ends     []Entry `json:"ends"`     // commit: EndorsersSig
 }
 
@@ -58,6 +64,45 @@ type Hist struct {
 	Connected []uint32 `json:"connected"`
 	Endorsers []uint32 `json:"endorsers"`
 	Ops       []Op     `json:"ops"`
+}
+
+// ---------- every call into the implementation goes through guard ----------
+
+// implPanic is a panic that escaped from the implementation.
+type implPanic struct {
+	Where string `json:"call"`
+	Func  string `json:"panicking_function"`
+	Msg   string `json:"panic"`
+}
+
+func (e *implPanic) Error() string { return "panic in " + e.Where + " (" + e.Func + "): " + e.Msg }
+
+// class names the oracle class: the implementation function the panic came through.
+func (e *implPanic) class() string {
+	if e.Func != "" {
+		return "panic:" + e.Func
+	}
+	return "panic:" + e.Where
+}
+
+// guard runs one call into the implementation; a panic never ends the run.
+func guard(where string, f func()) (ip *implPanic) {
+	defer func() {
+		if r := recover(); r != nil {
+			ip = &implPanic{Where: where, Msg: fmt.Sprint(r)}
+			st := string(debug.Stack())
+			// outermost exported entry of the vbft package the panic passed through
+			for _, fn := range []string{"DeserializeVbftMsg", "getCommitConsensus", "commitDone", "endorseDone", "newBlockCommitment",
+				"newBlockEndorsement", "newBlockProposal", "isEndorser", "Verify"} {
+				if strings.Contains(st, "vbft."+fn+"(") || strings.Contains(st, ")."+fn+"(") {
+					ip.Func = fn
+					break
+				}
+			}
+		}
+	}()
+	f()
+	return nil
 }
 
 // ---------- keys, blocks, signatures (real crypto) ----------
@@ -338,6 +383,7 @@ type observed struct {
 	Unverif  bool
 	Double   bool
 	FirstBad string // kind of the first passing message that is not verified
+	Stripped []string      // stage at which each proposal without a header signature list stopped
 	Unsigned []unsignedHit // messages that reached the pool although their own signature does not verify
 	Rejected int           // messages dropped although their own signature verifies
 	ViaSigs  bool   // getCommitConsensus on the stored commit messages finds nothing (second path decides)
@@ -359,7 +405,13 @@ func newRun(w *world, h *Hist) (*run, error) {
 			}
 		}
 	}
-	env, err := vbft.VerifC31NewEnv(h.Self, h.N, h.C, h.Peers, pubs, conn, h.Endorsers, blkNum, blkNum-1)
+	var env *vbft.VerifC31Env
+	var err error
+	if ip := guard("VerifC31NewEnv", func() {
+		env, err = vbft.VerifC31NewEnv(h.Self, h.N, h.C, h.Peers, pubs, conn, h.Endorsers, blkNum, blkNum-1)
+	}); ip != nil {
+		return nil, ip
+	}
 	if err != nil {
 		return nil, err
 	}
@@ -390,16 +442,32 @@ func (r *run) execute() (*observed, error) {
 			esig := r.sigOver(op.Sig, eblk.Hash())
 			hd.SigData = [][]byte{bsig}
 			ehd.SigData = [][]byte{esig}
+			var none [][]byte
+			if !op.StripNil {
+				none = [][]byte{}
+			}
+			if op.StripSig&1 != 0 {
+				hd.SigData = none
+			}
+			if op.StripSig&2 != 0 {
+				ehd.SigData = none
+			}
 			blk.Header, eblk.Header = &hd, &ehd
-			data, err = vbft.VerifC31ProposalMsg(&blk, &eblk, nil)
-			own = r.ownSigOK(op.Proposer, blk.Hash(), bsig) && r.ownSigOK(op.Proposer, eblk.Hash(), esig)
+			if ip := guard("VerifC31ProposalMsg", func() { data, err = vbft.VerifC31ProposalMsg(&blk, &eblk, nil) }); ip != nil {
+				return nil, ip
+			}
+			own = op.StripSig == 0 && r.ownSigOK(op.Proposer, blk.Hash(), bsig) && r.ownSigOK(op.Proposer, eblk.Hash(), esig)
 			m.SigID = r.idOfSig(bsig)
 			m.Valid = r.validFor(op.Proposer, op.Proposer, false, bsig)
 			verified = m.Valid && inPeers(op.Proposer)
 		case "endorse":
 			h := r.pick(op.MsgHash, op.Proposer, op.ForEmpty)
 			sg := r.mkSig(op.Sig, op.Proposer, op.ForEmpty)
-			data, err = vbft.VerifC31EndorseMsg(op.Claimed, op.Proposer, blkNum, h, op.ForEmpty, nil, sg)
+			if ip := guard("VerifC31EndorseMsg", func() {
+				data, err = vbft.VerifC31EndorseMsg(op.Claimed, op.Proposer, blkNum, h, op.ForEmpty, nil, sg)
+			}); ip != nil {
+				return nil, ip
+			}
 			if err == nil && op.Sig.Key == sigMissing {
 				data, err = dropJSONField(data, "endorser_sig")
 			}
@@ -426,7 +494,11 @@ func (r *run) execute() (*observed, error) {
 					double = true
 				}
 			}
-			data, err = vbft.VerifC31CommitMsg(op.Claimed, op.Proposer, blkNum, h, op.ForEmpty, nil, es, sg)
+			if ip := guard("VerifC31CommitMsg", func() {
+				data, err = vbft.VerifC31CommitMsg(op.Claimed, op.Proposer, blkNum, h, op.ForEmpty, nil, es, sg)
+			}); ip != nil {
+				return nil, ip
+			}
 			if err == nil && op.Sig.Key == sigMissing {
 				data, err = dropJSONField(data, "committer_sig")
 			}
@@ -443,9 +515,19 @@ func (r *run) execute() (*observed, error) {
 		if err != nil {
 			return nil, fmt.Errorf("serialize %s: %v", op.Kind, err)
 		}
-		stage, _ := r.env.VerifC31Receive(op.Sender, data)
+		var stage string
+		if ip := guard("VerifC31Receive", func() { stage, _ = r.env.VerifC31Receive(op.Sender, data) }); ip != nil {
+			ip.Where = fmt.Sprintf("VerifC31Receive, message #%d (%s)", len(o.Ops), op.Kind)
+			return nil, ip
+		}
 		passed := false
+		if op.Kind == "proposal" && op.StripSig != 0 {
+			o.Stripped = append(o.Stripped, stage)
+		}
 		switch stage {
+		case vbft.VerifC31BadEncoding:
+			// rejected by the wire decoder: dropped before msg.Verify
+			o.Results = append(o.Results, "dropped")
 		case vbft.VerifC31Added:
 			passed = true
 			o.Results = append(o.Results, "added")
@@ -478,7 +560,13 @@ func (r *run) execute() (*observed, error) {
 		o.Ops = append(o.Ops, m)
 	}
 	// state dump with validity recomputed from the stored bytes
-	props, commits, esigs, present := r.env.VerifC31Dump(blkNum)
+	var props []vbft.VerifC31ProposalView
+	var commits []vbft.VerifC31CommitView
+	var esigs map[uint32][]vbft.VerifC31ESigView
+	var present bool
+	if ip := guard("VerifC31Dump", func() { props, commits, esigs, present = r.env.VerifC31Dump(blkNum) }); ip != nil {
+		return nil, ip
+	}
 	if present {
 		for _, p := range props {
 			o.Props = append(o.Props, mOp{Kind: "proposal", Proposer: p.Proposer, SigID: r.idOfSig(p.Sig),
@@ -509,17 +597,26 @@ func (r *run) execute() (*observed, error) {
 		cand = append(cand, k)
 	}
 	for _, i := range cand {
-		o.IsEnd[i] = r.env.VerifC31IsEndorser(blkNum, i)
+		i := i
+		if ip := guard("isEndorser", func() { o.IsEnd[i] = r.env.VerifC31IsEndorser(blkNum, i) }); ip != nil {
+			return nil, ip
+		}
 	}
 	// commitDone / endorseDone: Go randomises map iteration, so ask several times
 	seenCD, seenED := map[outcome]bool{}, map[outcome]bool{}
 	for k := 0; k < 8; k++ {
-		p, fe, done := r.env.VerifC31CommitDone(blkNum, r.h.C, r.h.N)
+		var p uint32
+		var fe, done bool
+		if ip := guard("commitDone", func() { p, fe, done = r.env.VerifC31CommitDone(blkNum, r.h.C, r.h.N) }); ip != nil {
+			return nil, ip
+		}
 		if oc := (outcome{p, fe, done}); !seenCD[oc] {
 			seenCD[oc] = true
 			o.CD = append(o.CD, oc)
 		}
-		p, fe, done = r.env.VerifC31EndorseDone(blkNum, r.h.C)
+		if ip := guard("endorseDone", func() { p, fe, done = r.env.VerifC31EndorseDone(blkNum, r.h.C) }); ip != nil {
+			return nil, ip
+		}
 		if oc := (outcome{p, fe, done}); !seenED[oc] {
 			seenED[oc] = true
 			o.ED = append(o.ED, oc)
@@ -533,7 +630,10 @@ func (r *run) execute() (*observed, error) {
 		}
 		specs = append(specs, sp)
 	}
-	gp, _ := vbft.VerifC31GetCommitConsensus(specs, int(r.h.C), int(r.h.N))
+	var gp uint32
+	if ip := guard("getCommitConsensus", func() { gp, _ = vbft.VerifC31GetCommitConsensus(specs, int(r.h.C), int(r.h.N)) }); ip != nil {
+		return nil, ip
+	}
 	o.ViaSigs = gp == maxU32
 	sortOutcomes(o.CD)
 	sortOutcomes(o.ED)
